@@ -395,6 +395,54 @@ def all_trees(quick, rng):
     return ts
 
 
+def closure_leaves_pickle(ctx):
+    """"can be pickled": composites whose leaves are closures / lambdas (not importable by name), with the standard pickle
+    module (what multiprocessing uses): the copy evaluates like the original, compares equal to it, keeps its flag"""
+    def make2(k):
+        def wave(x, y):
+            return AMP[0] * np.cos(k * x) * (1 + 0.1 * y)
+        return wave
+
+    def make3(k):
+        def wave3(x, y, z):
+            return AMP[0] * (np.sin(k * x) + 0.2 * z + 0.05 * y)
+        return wave3
+
+    def maket(w):
+        def drive(x, y, z, *, t):
+            return AMP[0] * (1.0 + 0.3 * np.sin(w * t) + 0.01 * x + 0 * y + 0 * z)
+        return drive
+
+    first = None
+    p2, p3, pt, lam = Parameter(make2(1.3)), Parameter(make3(0.7)), Parameter(maket(2.0), time_dependent=True), Parameter(lambda x, y: 0.5 + 0.1 * x * y)
+    exprs = []
+    for nm_, op in OPS:
+        exprs += [(f"(p3 {nm_} 2)", op(p3, 2), True, False), (f"(2.5 {nm_} p2)", op(2.5, p2), False, False), (f"(pt {nm_} p3)", op(pt, p3), True, True),
+                  (f"(lam {nm_} p2)", op(lam, p2), False, False), (f"((pt {nm_} 2) * p3)", op(pt, 2) * p3, True, True)]
+    for label, e, is3, td in exprs:
+        ctx.case(("closure-leaves-pickle", label), nontrivial=True)
+        ctx.count("closure_leaf_composites_pickled")
+        try:
+            r = pickle.loads(pickle.dumps(e))
+            args = (X, Y, Z) if is3 else (X, Y)
+            kw = dict(t=0.4) if td else {}
+            a, b = np.asarray(e(*args, **kw)), np.asarray(r(*args, **kw))
+            bad = None
+            if not np.array_equal(a, b, equal_nan=True):
+                bad = "the unpickled copy evaluates differently"
+            elif bool(r.time_dependent) != td:
+                bad = "the unpickled copy lost its time_dependent flag"
+            elif not (r == e):
+                bad = "the unpickled copy does not compare equal to the original"
+        except Exception as ex:  # noqa
+            bad = f"pickle round trip raised {type(ex).__name__}: {str(ex)[:90]}"
+        if bad:
+            rp = dict(tree=label, problem=bad)
+            ctx.fail("pickle:closure-leaves", f"{label} over closure / lambda leaves: {bad}", rp)
+            first = first or dict(key="pickle:closure-leaves", what=bad, **rp)
+    return first
+
+
 def run(ctx, stop_first=False, with_model=True):
     first = None
     ts = all_trees(ctx.quick, ctx.rng)
@@ -428,6 +476,8 @@ def run(ctx, stop_first=False, with_model=True):
                         first = f
                         if stop_first:
                             return first
+    f = closure_leaves_pickle(ctx)
+    first = first or f
     f = solver_use(ctx)
     first = first or f
     if with_model and os.environ.get('C16_NOMODEL') != '1':
